@@ -36,6 +36,37 @@ pub fn all() -> Vec<PropSpec> {
             required_probes: &["a.zero_len_msg", "a.multi_chunk_msg", "a.setchunk", "a.multi_call_delivery"],
         },
         PropSpec {
+            id: "C03",
+            level: "fault_enumeration",
+            quick_runs: 300_000,
+            thorough_runs: 10_000_000,
+            run: |c| worlds::c03::run(c),
+            rule: "one run = one live scenario (deserializer + message decoder, handshake, server session, client session) receiving a valid prefix and then hostile-peer faults: hostile message vocabulary in well-formed chunk streams (every type id, short / empty / mistyped AMF0 argument lists, huge declared counts, nesting <= 32) plus link faults bitflip / overwrite / truncate_packet / insert_garbage / duplicate_range / splice_header / close, at PRNG-chosen cuts; safety oracle only (returns, no panic incl. overflow checks, no abort/hang via worker supervision, attributed heap bound 1 MiB + 256 x bytes received + 32 MiB per node); non-trivial = at least one fault fired or 2 messages delivered; distinct = distinct schedule hash",
+            real: &["ChunkDeserializer", "MessagePayload::to_rtmp_message", "rml_amf0::deserialize", "Handshake", "ServerSession", "ClientSession"],
+            stub: &["RefChunkEncoder (hostile peer)", "RefAmf0 encoder", "link with hostile-peer faults", "counting allocator", "worker watchdog"],
+            assumptions: &[
+                "AMF0 nesting depth bounded to 32 (unbounded nesting is C14, not claimed)",
+                "heap bound constant 256 x bytes received is deliberately generous (one 05 byte legitimately becomes a ~56-byte enum value)",
+                "release build with overflow-checks and debug-assertions on, so arithmetic overflow is a panic",
+            ],
+            required_probes: &["c03.b.message_decoded", "c03.b.message_decode_err", "c03.b.deser_err", "c03.garbage_stream"],
+        },
+        PropSpec {
+            id: "C15",
+            level: "exploration",
+            quick_runs: 150_000,
+            thorough_runs: 5_000_000,
+            run: |c| worlds::c15::run(c),
+            rule: "one run = ONE byte stream (library-produced, foreign sequential, foreign multiplexed, each optionally with 1-3 mutations; scripted session streams) fed to four fresh instances through four partitions (one call; byte by byte; PRNG; PRNG biased to cuts inside header fields); outputs and error position must agree; non-trivial = stream of at least 20 bytes; distinct = distinct schedule hash of the two PRNG partitions",
+            real: &["ChunkDeserializer", "ServerSession", "ClientSession"],
+            stub: &["stream generators (World A sender, RefChunkEncoder)", "link partitions", "per-instance output taps"],
+            assumptions: &[
+                "sessions: no application calls are made during the stream under test; Acknowledgement messages are excluded (their placement depends on call boundaries by specification, see C17); the node clock is frozen",
+                "outputs accumulated inside a failing call are discarded by the library together with the Err; 'agrees on everything delivered before it' is read as 'everything it did deliver'",
+            ],
+            required_probes: &["c15.library_stream", "c15.foreign_stream", "c15.mutated_stream", "c15.stream_ends_in_error"],
+        },
+        PropSpec {
             id: "C06",
             level: "exploration",
             quick_runs: 400_000,
